@@ -42,6 +42,7 @@ type Engine struct {
 	axiomsLoaded bool
 	refTags  map[string]int
 	srcCache map[string][]string
+	sealedCache map[string][]types.Type
 }
 
 func relName(fn *ssa.Function) string {
@@ -491,4 +492,55 @@ func (e *Engine) sourceLine(p token.Pos) string {
 		return ls[pos.Line-1]
 	}
 	return ""
+}
+
+// sealedImpls: for an interface of a repository package that has an unexported method, the
+// dynamic type of a non-nil value is one of the implementers declared in that package.
+func (e *Engine) sealedImpls(t types.Type) []types.Type {
+	if t == nil {
+		return nil
+	}
+	n, ok := t.(*types.Named)
+	if !ok || n.Obj().Pkg() == nil || !isRepoPkg(n.Obj().Pkg()) {
+		return nil
+	}
+	it, ok := n.Underlying().(*types.Interface)
+	if !ok {
+		return nil
+	}
+	sealed := false
+	for i := 0; i < it.NumMethods(); i++ {
+		if !it.Method(i).Exported() {
+			sealed = true
+		}
+	}
+	if !sealed {
+		return nil
+	}
+	k := typeKey(t)
+	if e.sealedCache == nil {
+		e.sealedCache = map[string][]types.Type{}
+	}
+	if r, ok := e.sealedCache[k]; ok {
+		return r
+	}
+	var out []types.Type
+	sc := n.Obj().Pkg().Scope()
+	for _, name := range sc.Names() {
+		tn, ok := sc.Lookup(name).(*types.TypeName)
+		if !ok || tn.IsAlias() {
+			continue
+		}
+		if _, isI := tn.Type().Underlying().(*types.Interface); isI {
+			continue
+		}
+		if types.Implements(tn.Type(), it) {
+			out = append(out, tn.Type())
+		}
+		if pt := types.NewPointer(tn.Type()); types.Implements(pt, it) {
+			out = append(out, pt)
+		}
+	}
+	e.sealedCache[k] = out
+	return out
 }
